@@ -10,11 +10,11 @@ from ..runner import Failure
 
 LEVEL = "exploration"
 RULE = (
-    "knob grid per query family: reductions split_every in {False,2,3,4,8}; groupby (1-2 keys; sum/mean/count/var/nunique/min/size/agg-dict) split_every x split_out in {1,2,3,True} x sort in "
+    "knob grid per query family: reductions (sum/mean/min/max/var/std/sem/count/idxmin/idxmax/any/all/nunique/mode/nlargest/nsmallest/cov/corr on a Series and a frame) split_every in {False,2,3,4,8}; groupby (1-2 keys; sum/mean/count/var/nunique/min/size/agg-dict) split_every x split_out in {1,2,3,True} x sort in "
     "{None,True,False} x shuffle_method in {None,tasks,disk}; unique/drop_duplicates/value_counts/nunique split_out x split_every x shuffle_method; merge (inner/left/right/outer) broadcast in "
     "{None,True,False,0.1,0.9,3.0} x npartitions hint in {None,2,7} x shuffle_method with (n_left,n_right) in {(2,17),(20,3),(3,3),(1,5),(8,8),(17,2)}; shuffle/sort_values/set_index max_branch in 2..8 x "
     "npartitions x upsample in {0.5,1,4} on presorted and unsorted inputs; fuse on/off everywhere. Oracle: every grid point equals the pandas result (row order / layout ignored; sort outputs must be "
-    "ordered by key and a permutation of the rows). non-trivial = the grid point's physical plan has a different expression-class multiset than the default configuration's; distinct by (query, knobs)"
+    "ordered by key and a permutation of the rows). non-trivial = the grid point's physical plan has a different expression-class multiset (reductions: a different number of tasks) than the default configuration's; distinct by (query, knobs)"
 )
 ASSUMPTIONS = ["p2p unreachable", "float tolerance rtol=1e-9 for mean/var"]
 BUDGET_S = {"quick": 170, "thorough": 3000}
@@ -43,7 +43,7 @@ def systematic(tier):
     se_vals = [None, False, 2, 3, 4, 8]
     nparts = [3, 20] if tier == "quick" else [1, 3, 9, 20]
     # reductions
-    for how in ("sum", "mean", "max", "var", "count", "std", "min"):
+    for how in ("sum", "mean", "max", "var", "count", "std", "min", "idxmin", "idxmax", "any", "all", "sem", "nunique_frame", "mode", "nlargest", "nsmallest", "cov", "corr"):
         for se in se_vals:
             for n in nparts:
                 for target in ("series", "frame"):
@@ -99,7 +99,28 @@ def build(case, knobs=True):
         d = dx.from_pandas(pdf, npartitions=case["n"], sort=False)
         obj_d, obj_p = (d.f, pdf.f) if case["target"] == "series" else (d[["f", "u", "k"]], pdf[["f", "u", "k"]])
         kw = _kw(split_every=case["split_every"]) if knobs else {}
-        return getattr(obj_d, case["how"])(**kw), getattr(obj_p, case["how"])(), {"order": False}
+        how = case["how"]
+        ser = case["target"] == "series"
+        if how in ("nlargest", "nsmallest"):  # u is unique: one valid answer
+            if ser:
+                return getattr(d.u, how)(5, **kw), getattr(pdf.u, how)(5), {"order": False}
+            return getattr(obj_d, how)(5, columns="u", **kw), getattr(obj_p, how)(5, columns="u"), {"order": False}
+        if how in ("cov", "corr"):
+            if ser:
+                return getattr(d.f, how)(d.u, **kw), getattr(pdf.f, how)(pdf.u), {"order": False}
+            return getattr(obj_d, how)(**kw), getattr(obj_p, how)(), {"order": False}
+        if how == "mode":
+            if ser:
+                return d.k.mode(**kw), pdf.k.mode(), {"order": False, "index": False}
+            return d[["k", "k2"]].mode(**kw), pdf[["k", "k2"]].mode(), {"order": False, "index": False}
+        if how == "nunique_frame":
+            return obj_d.nunique(**kw) if not ser else d.u.nunique(**kw), obj_p.nunique() if not ser else pdf.u.nunique(), {"order": False}
+        if how in ("any", "all"):
+            bd, bp = (d.k2 > 0, pdf.k2 > 0) if ser else (d[["k2", "u"]] > 0, pdf[["k2", "u"]] > 0)
+            if how == "any":
+                bd, bp = ~bd, ~bp
+            return getattr(bd, how)(**kw), getattr(bp, how)(), {"order": False}
+        return getattr(obj_d, how)(**kw), getattr(obj_p, how)(), {"order": False}
     if fam == "groupby":
         pdf = table(60)
         d = dx.from_pandas(pdf, npartitions=case["n"], sort=False)
@@ -207,6 +228,9 @@ def check(case):
         c0 = plans.classes_in(q0.optimize(fuse=case["fuse"]).expr)
         c1 = plans.classes_in(opt.expr)
         nt = c0 != c1
+        if not nt and case["fam"] == "reduction":
+            # split_every changes the shape of the reduction tree, not the expression classes
+            nt = len(q0.optimize(fuse=case["fuse"]).expr.__dask_graph__()) != len(opt.expr.__dask_graph__())
     except Exception:
         pass
     classes = ["fam:" + case["fam"], "fuse" if case["fuse"] else "nofuse"] + (["plan_differs_from_default"] if nt else [])
